@@ -567,7 +567,63 @@ class Gen:
 
 # ---- items: one self-contained group of declarations each ---------------------------
 
-ITEM_KINDS = ("scalar", "scalar", "scalar", "scalar", "array", "struct", "bitfield", "enum", "arraysize")
+ITEM_KINDS = ("scalar", "scalar", "scalar", "scalar", "array", "struct", "bitfield", "enum", "arraysize",
+              "pointer", "string", "float", "aggregate")
+K_STRNEST = "string-literal-for-nested-char-array"
+
+# pieces of string literals: (spelling, byte); a \x escape is only ever followed by a non-hex character
+STR_PIECES = [("a", 97), ("Z", 90), ("0", 48), (" ", 32), ("\\n", 10), ("\\t", 9), ("\\\\", 92), ("\\\"", 34),
+              ("\\377", 255), ("\\200", 128), ("\\376", 254), ("\\177", 127), ("\\xffg", None), ("\\x80s", None),
+              ("\\101", 65), ("\\1", 1)]
+CHAR_TYPES = ("char", "schar", "uchar")
+
+
+def gen_string(r, maxlen=6):
+    """(spelling without quotes, bytes)"""
+    txt, data = "", b""
+    for _ in range(r.randrange(0, maxlen)):
+        sp, b = r.choice(STR_PIECES)
+        if b is None:   # "\xffg": two characters
+            txt += sp
+            data += bytes([int(sp[2:4], 16), ord(sp[4])])
+        else:
+            txt += sp
+            data += bytes([b])
+    return txt, data
+
+
+def char_array_init(r, avoid, tags, nested):
+    """-> (dimension text, initialiser text, image bytes) for a char array object or member."""
+    txt, data = gen_string(r)
+    mode = r.choice(("exact", "nul", "wide", "unsized"))
+    if nested and mode == "unsized":
+        mode = "nul"
+    if mode == "exact" and not data:
+        mode = "nul"
+    size = {"exact": len(data), "nul": len(data) + 1, "wide": len(data) + r.randrange(2, 5),
+            "unsized": len(data) + 1}[mode]
+    img = data.ljust(size, b"\0")
+    use_string = True
+    if nested:
+        # ppci: a string literal for a char array that is itself a member/element raises AssertionError
+        if K_STRNEST in avoid or r.random() < 0.3:
+            use_string = False
+        else:
+            tags.add(K_STRNEST)
+    if any(b >= 0x80 for b in data):
+        tags.add(K_PACK)    # elements evaluate to negative char values: pack() must convert them
+    if use_string:
+        init = '"%s"' % txt
+        if r.random() < 0.15 and not nested:
+            init = "{%s}" % init      # char s[] = {"abc"}; is valid too
+    else:
+        init = "{%s}" % ", ".join(str(b) if b < 0x80 else r.choice((str(b), "'\\%o'" % b)) for b in data) if data else "{0}"
+    return ("" if mode == "unsized" else str(size)), init, img
+
+
+def float_bytes(x, double):
+    import struct
+    return struct.pack("<d" if double else "<f", x)
 
 
 def le_bytes(v, nbytes):
@@ -686,7 +742,99 @@ def _gen_item(r, g, n, avoid, kind):
         decl += " ".join("int g%d_%d = %s;" % (n, i, nm) for i, (nm, _) in enumerate(names))
         decl += "\nlong long g%d_u = %s;" % (n, use.text)
         obs.append(("g%d_u" % n, le_bytes(dest_value(use, "llong", tags), 8)))
+        # an enumeration constant into a narrower / unsigned object
+        nt = r.choice(("char", "schar", "uchar", "short", "ushort", "uint", "ulong"))
+        nm, nv = r.choice(names)
+        if not fits(nv, nt):
+            tags.add(K_PACK)
+        decl += "\n%s g%d_n = %s;" % (spelling(nt, r), n, nm)
+        obs.append(("g%d_n" % n, le_bytes(wrap(nv, nt), bits(nt) // 8)))
         return Item(kind, decl, obs, [], exprs, "enum", tags)
+    if kind == "pointer":
+        # an integer constant expression converted to a pointer: the object is wider / of another kind
+        # than the expression the evaluator reduced
+        e = g.expr()
+        via = r.choice((None, None, "int", "uint", "short", "uchar", "long", "ulong", "schar"))
+        v = e.value if via is None else wrap(e.value, via)
+        if via is not None and v != e.value:
+            tags.add(K_NOWRAP)
+        if not 0 <= v < (1 << 63):
+            tags.add(K_PACK)
+        inner = e.emb(P_UNARY) if via is None else "(%s)%s" % (spelling(via, r), e.emb(P_UNARY))
+        img = le_bytes(v, 8)
+        form = r.random()
+        pt = r.choice(("void", "char", "int", "long", "unsigned char", "const char"))
+        if form < 0.45:
+            decl = "%s%s *g%d = (%s *)%s;" % (r.choice(("", "", "static ")), pt, n, pt, inner)
+        elif form < 0.6:
+            decl = "int (*g%d)(void) = (int (*)(void))%s;" % (n, inner)
+        elif form < 0.8:
+            e2 = g.expr()
+            if not 0 <= e2.value < (1 << 63):
+                tags.add(K_PACK)
+            decl = "%s *g%d[3] = {(%s *)%s, (%s *)%s};" % (pt, n, pt, inner, pt, e2.emb(P_UNARY))
+            img += le_bytes(e2.value, 8) + bytes(8)
+            return Item(kind, decl, [("g%d" % n, img)], [], [e, e2], "pointer", tags | e.tags | e2.tags)
+        else:
+            e2 = g.expr()
+            lv = dest_value(e2, "long", tags)
+            decl = "struct p%d { %s *f0; long f1; } g%d = {(%s *)%s, %s};" % (n, pt, n, pt, inner, e2.text)
+            img += le_bytes(lv, 8)
+            return Item(kind, decl, [("g%d" % n, img)], [], [e, e2], "pointer", tags | e.tags | e2.tags)
+        return Item(kind, decl, [("g%d" % n, img)], [], [e], "pointer", tags | e.tags)
+    if kind == "string":
+        ct = r.choice(CHAR_TYPES)
+        dim, init, img = char_array_init(r, avoid, tags, nested=False)
+        decl = "%s%s g%d[%s] = %s;" % (r.choice(("", "", "static ", "const ")), spelling(ct, r), n, dim, init)
+        it = Item(kind, decl, [("g%d" % n, img)], [], [], ct, tags)
+        it.nops = 1
+        it.ops = frozenset({("string-literal", ct)})
+        return it
+    if kind == "float":
+        if r.random() < 0.5:
+            # integer constant expression into a floating object
+            e = g.expr()
+            double = r.random() < 0.6
+            if not double and abs(e.value) >= (1 << 53):
+                return None     # keep to a single rounding step (int -> double exact, then -> float)
+            decl = "%s g%d = %s;" % ("double" if double else "float", n, e.text)
+            it = Item(kind, decl, [("g%d" % n, float_bytes(float(e.value), double))], [], [e],
+                      "double" if double else "float", e.tags)
+            return it
+        # floating literal into an integer object: truncation toward zero, value kept in range
+        t = r.choice(ALL_TYPES)
+        whole = r.randrange(0, min(tmax(t), 1 << 40) + 1)
+        neg = signed(t) and r.random() < 0.4 and whole <= -tmin(t) - 1
+        txt = "%d.%s" % (whole, r.choice(("0", "5", "25", "999")))
+        if r.random() < 0.2:
+            txt += "e0"
+        v = -whole if neg else whole
+        decl = "%s g%d = %s%s;" % (spelling(t, r), n, "-" if neg else "", txt)
+        it = Item(kind, decl, [("g%d" % n, le_bytes(v, bits(t) // 8))], [], [], t, tags)
+        it.nops = 1
+        it.ops = frozenset({("float-literal-initialiser", t)})
+        return it
+    if kind == "aggregate":
+        # pointer, long and a char array member (decreasing alignment: no inner padding)
+        e, e2 = g.expr(), g.expr()
+        if not 0 <= e.value < (1 << 63):
+            tags.add(K_PACK)
+        lv = dest_value(e2, "long", tags)
+        ct = r.choice(CHAR_TYPES)
+        dim, init, simg = char_array_init(r, avoid, tags, nested=True)
+        pt = r.choice(("void", "char", "long"))
+        body = "%s *f0; long f1; %s f2[%s];" % (pt, spelling(ct, r), dim)
+        inits = ["(%s *)%s" % (pt, e.emb(P_UNARY)), e2.text, init]
+        if r.random() < 0.3:
+            inits = [".f0 = " + inits[0], ".f1 = " + inits[1], ".f2 = " + inits[2]]
+            if r.random() < 0.5:
+                r.shuffle(inits)
+        img = le_bytes(e.value, 8) + le_bytes(lv, 8) + simg
+        if r.random() < 0.35:
+            decl = "struct i%d { %s };\nstruct o%d { struct i%d in; } g%d = {{%s}};" % (n, body, n, n, n, ", ".join(inits))
+        else:
+            decl = "struct i%d { %s } g%d = {%s};" % (n, body, n, ", ".join(inits))
+        return Item(kind, decl, [("g%d" % n, img)], [], [e, e2], "aggregate", tags | e.tags | e2.tags, loose=True)
     if kind == "arraysize":
         t = r.choice(ALL_TYPES)
         e = g.expr(lo=1, hi=3000)
